@@ -59,6 +59,11 @@ def level_opts(rng):
     elif r < 0.8:
         o['all'] = True
         o['only_level'] = rng.choice([1, 2])
+    elif r < 0.92:
+        # --only-level wins over whatever --at-level says (0 and negative
+        # values of --at-level mean "all levels")
+        o['at_level'] = rng.choice([-1, 0, 0, 1, 3])
+        o['only_level'] = rng.choice([0, 1, 2, 3])
     r = rng.random()
     if r < 0.15:
         o['unit'] = True
